@@ -380,6 +380,68 @@ fn k20_alias_dict_of_seq() {
 //@ prop: C20
 //@ family: K20-catalogue
 //@ tier: quick
+//@ functions: TypeAlias::visit_with, TypeRef::visit_with (ResultType arm descending into its failure type)
+//@ inst: recording Visitor; hand-built TypeAlias of Result<S, Sequence<E>> (S, E unresolved references)
+//@ inputs: is_optional of the failure type
+//@ oracle: recorded == [alias, its type, success type, failure type, element type nested inside the failure type], each by address, nothing else: the failure type is descended into as well
+//@ bound: unwind 4; nesting depth 2
+//@ timeout: 900
+#[kani::proof]
+#[kani::unwind(4)]
+fn k20_alias_result_failure_seq() {
+    let inner_seq = OwnedPtr::new(Sequence { element_type: unpatched() });
+    let mut failure = patched(upcast_weak_as!(inner_seq.downgrade(), dyn Type));
+    failure.is_optional = kani::any();
+    let res = OwnedPtr::new(ResultType { success_type: unpatched(), failure_type: failure });
+    let a = alias_of(patched(upcast_weak_as!(res.downgrade(), dyn Type)));
+    let mut r = Rec::new();
+    a.visit_with(&mut r);
+    let rr = res.borrow();
+    let s = inner_seq.borrow();
+    kani::cover!(rr.failure_type.is_optional, "optional failure type reachable");
+    assert!(r.n == 5, "exactly alias + 4 type references");
+    assert!(r.is(0, ALIAS, &a) && r.is(1, TYPEREF, &a.underlying), "alias, then its type");
+    assert!(r.is(2, TYPEREF, &rr.success_type) && r.is(3, TYPEREF, &rr.failure_type), "success type, then failure type");
+    assert!(r.is(4, TYPEREF, &s.element_type), "then the element type nested inside the failure type");
+    core::mem::forget(a);
+    core::mem::forget(res);
+    core::mem::forget(inner_seq);
+}
+
+//@ prop: C20
+//@ family: K20-catalogue
+//@ tier: quick
+//@ functions: TypeAlias::visit_with, TypeRef::visit_with (Dictionary arm descending into its key type)
+//@ inst: recording Visitor; hand-built TypeAlias of Dictionary<Sequence<E>, V> (E, V unresolved references; an illegal key, which the validators can only report if the visitor presents it)
+//@ inputs: is_optional of the key type
+//@ oracle: recorded == [alias, its type, key type, element type nested inside the key, value type], each by address, nothing else
+//@ bound: unwind 4; nesting depth 2
+//@ timeout: 900
+#[kani::proof]
+#[kani::unwind(4)]
+fn k20_alias_dict_key_seq() {
+    let inner_seq = OwnedPtr::new(Sequence { element_type: unpatched() });
+    let mut key = patched(upcast_weak_as!(inner_seq.downgrade(), dyn Type));
+    key.is_optional = kani::any();
+    let dict = OwnedPtr::new(Dictionary { key_type: key, value_type: unpatched() });
+    let a = alias_of(patched(upcast_weak_as!(dict.downgrade(), dyn Type)));
+    let mut r = Rec::new();
+    a.visit_with(&mut r);
+    let d = dict.borrow();
+    let s = inner_seq.borrow();
+    kani::cover!(d.key_type.is_optional, "optional key type reachable");
+    assert!(r.n == 5, "exactly alias + 4 type references");
+    assert!(r.is(0, ALIAS, &a) && r.is(1, TYPEREF, &a.underlying), "alias, then its type");
+    assert!(r.is(2, TYPEREF, &d.key_type) && r.is(3, TYPEREF, &s.element_type), "key type, then the element type nested inside it");
+    assert!(r.is(4, TYPEREF, &d.value_type), "the value type comes after everything of the key type");
+    core::mem::forget(a);
+    core::mem::forget(dict);
+    core::mem::forget(inner_seq);
+}
+
+//@ prop: C20
+//@ family: K20-catalogue
+//@ tier: quick
 //@ functions: SliceFile::visit_with, Module::visit_with, CustomType::visit_with, Struct::visit_with, Definition dispatch
 //@ inst: recording Visitor; hand-built SliceFile with or without a module (two concrete layouts) and two definitions: a custom type, then an empty struct
 //@ inputs: module present or not
